@@ -328,8 +328,9 @@ theorem facts_tie :
     (∀ t : Table, needsCompaction t = ((Facts.compaction_takes_tables_without_live_entries && t.inuse == 0 && decide (t.garbage > 0)) ||
         decide (t.garbage * Facts.maxGarbageRatioDen ≥ t.alloc * Facts.maxGarbageRatioNum))) ∧
     Facts.table_put_deletes_existing = true ∧ Facts.table_putraw_deletes_existing = true ∧
-    Facts.compaction_skips_readwrite = true ∧ Facts.sweep_unregisters_by_coefficient = false := by
-  refine ⟨fun r => by simp [Rec.size, Facts.metadataLength], rfl, ?_, rfl, rfl, rfl, rfl⟩
+    Facts.compaction_skips_readwrite = true ∧ Facts.sweep_unregisters_by_coefficient = false ∧
+    Facts.table_pack_is_checked_before_a_table_is_built = true := by
+  refine ⟨fun r => by simp [Rec.size, Facts.metadataLength], rfl, ?_, rfl, rfl, rfl, rfl, rfl⟩
   intro t
   simp only [needsCompaction, Facts.maxGarbageRatioDen, Facts.maxGarbageRatioNum,
     Facts.compaction_takes_tables_without_live_entries, Bool.true_and]
